@@ -38,6 +38,7 @@ MIN_REACH = {
     "retries_exact": {"quick": 300, "thorough": 1200},
     "sync_before_delete_observed": {"quick": 12, "thorough": 120},
     "reaps_by_an_object_older_than_the_last_sow": {"quick": 30, "thorough": 100},
+    "unsynced_farmer_reaps": {"quick": 15, "thorough": 50},
 }
 TIME_BUDGET = {"quick": 400, "thorough": 3400}
 
@@ -64,6 +65,11 @@ def cases(ctx):
                     yield {"kind": kind, "fail": fail, "clean_up": clean_up, "allow_incomplete": allow, "wait": wait,
                            "shape": SHAPES[s], "shuffle": [False, True, 3][idx % 3], "idx": idx}
                     idx += 1
+                    if kind in ("harvester", "sampler") and fail == "none" and not wait:
+                        # the same with sync=False (results returned, nothing merged): the clean-up rules do not change
+                        yield {"kind": kind, "fail": fail, "clean_up": clean_up, "allow_incomplete": allow, "wait": wait,
+                               "shape": SHAPES[s], "shuffle": [False, True, 3][idx % 3], "idx": idx, "nosync": True}
+                        idx += 1
     # a long-lived Crop object (a notebook that monitors and reaps) whose crop is re-sown with an extended sweep and grown
     # by ANOTHER Crop object before it reaps: it must deliver everything that is now in the crop, or refuse and keep it
     for s in range(nshapes):
@@ -235,6 +241,9 @@ def run_case(ctx, case):
     name = "c12"
     loc = cropkit.crop_dir(tmp, name)
     opts = {"clean_up": case["clean_up"], "allow_incomplete": case["allow_incomplete"], "wait": case["wait"]}
+    if case.get("nosync"):
+        opts["sync"] = False
+        ctx.count("unsynced_farmer_reaps")
     sig = {"api": "reap", "farmer": kind, "fail": fail, "clean_up": str(case["clean_up"]), "allow_incomplete": case["allow_incomplete"],
            "wait": case["wait"]}
     order = Order()
@@ -382,7 +391,7 @@ def run_case(ctx, case):
                 bad.append("crop directory was %s although clean-up does not apply (clean_up=%r, allow_incomplete=%r)" % (
                     "deleted" if after is None else "modified", case["clean_up"], case["allow_incomplete"]))
     # for farmers the deletion must come after the sync has returned
-    if kind in ("harvester", "sampler"):
+    if kind in ("harvester", "sampler") and not case.get("nosync"):
         tag = "add_ds" if kind == "harvester" else "add_df"
         if "delete_all:enter" in ev1:
             i_del = ev1.index("delete_all:enter")
@@ -436,7 +445,7 @@ def run_case(ctx, case):
                         break
         except Exception as e:
             bad.append("retry after correcting the cause (%s) raised %r" % (fail, e))
-    elif not expect_fail and not bad and kind in ("harvester", "sampler") and fail != "incomplete":
+    elif not expect_fail and not bad and kind in ("harvester", "sampler") and fail != "incomplete" and not case.get("nosync"):
         try:
             if kind == "harvester":
                 if farmer._full_ds is not None:
